@@ -45,7 +45,7 @@ ALPHAS_SMALL = [0.01, 0.05, 0.5]
 ALPHAS_WIDE = [0.001, 0.01, 0.05, 0.1, 0.5, 0.9]
 DELTAS_QUICK = [(1, 2), (4, 5)]
 DELTAS_WIDE = [(1, 2), (4, 5), (1, 10), (9, 10), (1, 3), (2, 3)]     # = DeltasWide in Detectors.tla
-BOUND_DEN = 10**6          # = BoundDen in Detectors.tla
+BOUND_DEN = 10**8          # = BoundDen (Base^2) in Detectors.tla
 MQ = 10**4                 # = MQ in TraceDetectors.tla
 REL = 1e-9                 # metric tolerance and exclusion band around the chi-square bound
 BASE = 10**4               # BigNat limb base
@@ -70,9 +70,9 @@ def bound_table(alphas, dofs):
     out = []
     for a in alphas:
         b = chi2.isf(a, x)
-        if not np.all(np.isfinite(b)) or b.max() * BOUND_DEN >= 2**31:
-            raise tlc.MachineryError("chi-square bound out of range for TLC integers")
-        out.append([[f.numerator, f.denominator, int(round(v * BOUND_DEN))] for f, v in zip(dofs, b)])
+        if not np.all(np.isfinite(b)) or b.min() <= 0:
+            raise tlc.MachineryError("chi-square bound is not a positive finite number")
+        out.append([[f.numerator, f.denominator, limbs(int(round(v * BOUND_DEN)))] for f, v in zip(dofs, b)])
     return out
 
 
@@ -88,11 +88,19 @@ def bound(alpha, dn, dd):
     return v
 
 
-def big(limbs):
+def big(lm):
     v = 0
-    for x in reversed(limbs):
+    for x in reversed(lm):
         v = v * BASE + x
     return v
+
+
+def limbs(v: int):
+    out = []
+    while v:
+        out.append(v % BASE)
+        v //= BASE
+    return out
 
 
 # --------------------------------------------------------------------------- real objects
@@ -279,35 +287,45 @@ def replay_histories(ctx: Ctx, res, alphas, nis_den, dense, what, procs, expect_
     return tot
 
 
-def run_spec_to_impl(ctx: Ctx):
-    procs = 4 if ctx.quick else min(8, ctx.cpus)
-    workers = min(8, ctx.cpus)
+def plan_exhaustive(ctx: Ctx):
+    """[(label, run-TLC thunk, finish(res))] for the exhaustive spec -> impl configuration."""
+    workers = 4 if ctx.quick else min(8, ctx.cpus)
     cfg_name = "Detectors_quick.cfg" if ctx.quick else "Detectors_thorough.cfg"
     cfg_text = (tlc.SPEC_DIR / cfg_name).read_text()
     nis_den = int(re.search(r"NisDen = (\d+)", cfg_text).group(1))
     max_len = int(re.search(r"MaxLen = (\d+)", cfg_text).group(1))
     table = json.dumps(bound_table(ALPHAS_SMALL, dof_lattice(max_len, 3, 4, DELTAS_QUICK)))
     runs = [None] if ctx.quick else ['{"standard", "sliding"}', '{"fading"}']
+    plan = []
     for r, kinds in enumerate(runs):
         text = cfg_text if kinds is None else re.sub(r"Kinds = \{[^}]*\}", "Kinds = " + kinds, cfg_text)
         d = ctx.sub(f"exh{r}")
         (d / "bound.json").write_text(table)
-        res = tlc.require_ok(tlc.run_tlc("Detectors", text + "\n", d, workers=workers, env={"BOUND_FILE": "bound.json"},
-                                         timeout=3000, coverage=bool(os.environ.get("C17_COVERAGE"))), f"Detectors exhaustive {kinds or ''}")
-        ctx.add_tlc(res, f"Detectors.tla exhaustive histories {kinds or 'all kinds'} (theorems + emitted expectations)")
-        for inv, states in res.invariant_violations:
-            raise tlc.MachineryError(f"Detectors.tla theorem {inv} fails at spec level:\n" + "\n".join(states[-1:]))
-        if res.coverage:
-            check_coverage(ctx, res)
-        # every Construct* / *Step action of the spec must have produced histories
-        want = set()
-        if kinds is None or "standard" in kinds:
-            want.add(("standard", 0, 0, 1))
-            want.update(("sliding", w, 0, 1) for w in (1, 2, 3, 4))
-        if kinds is None or "fading" in kinds:
-            want.update(("fading", 0, p, q) for p, q in DELTAS_QUICK)
-        replay_histories(ctx, res, ALPHAS_SMALL, nis_den, dense=not ctx.quick, what=f"exhaustive{r}", procs=procs, expect_configs=want)
-        res.stdout = ""
+
+        def go(text=text, d=d):
+            return tlc.run_tlc("Detectors", text + "\n", d, workers=workers, env={"BOUND_FILE": "bound.json"},
+                               timeout=3000, coverage=bool(os.environ.get("C17_COVERAGE")))
+
+        def finish(res, r=r, kinds=kinds):
+            tlc.require_ok(res, f"Detectors exhaustive {kinds or ''}")
+            ctx.add_tlc(res, f"Detectors.tla exhaustive histories {kinds or 'all kinds'} (theorems + emitted expectations)")
+            for inv, states in res.invariant_violations:
+                raise tlc.MachineryError(f"Detectors.tla theorem {inv} fails at spec level:\n" + "\n".join(states[-1:]))
+            if res.coverage:
+                check_coverage(ctx, res)
+            # every Construct* / *Step action of the spec must have produced histories
+            want = set()
+            if kinds is None or "standard" in kinds:
+                want.add(("standard", 0, 0, 1))
+                want.update(("sliding", w, 0, 1) for w in (1, 2, 3, 4))
+            if kinds is None or "fading" in kinds:
+                want.update(("fading", 0, p, q) for p, q in DELTAS_QUICK)
+            replay_histories(ctx, res, ALPHAS_SMALL, nis_den, dense=not ctx.quick, what=f"exhaustive{r}",
+                             procs=1 if ctx.quick else min(8, ctx.cpus), expect_configs=want)
+            res.stdout = ""
+
+        plan.append((f"exhaustive{r}", go, finish))
+    return plan
 
 
 def check_coverage(ctx: Ctx, res):
@@ -319,32 +337,36 @@ def check_coverage(ctx: Ctx, res):
         raise tlc.MachineryError(f"Detectors.tla actions never taken: {missing}")
 
 
-def run_simulation(ctx: Ctx):
+def plan_simulation(ctx: Ctx):
     cfg_name = "Detectors_sim_quick.cfg" if ctx.quick else "Detectors_sim_thorough.cfg"
     cfg_text = (tlc.SPEC_DIR / cfg_name).read_text()
     nis_den = int(re.search(r"NisDen = (\d+)", cfg_text).group(1))
     max_len = int(re.search(r"MaxLen = (\d+)", cfg_text).group(1))
-    alphas = ALPHAS_WIDE[:5] if ctx.quick else ALPHAS_WIDE
+    nalpha = int(re.search(r"NAlpha = (\d+)", cfg_text).group(1))
+    alphas = ALPHAS_WIDE[:nalpha]
     table = json.dumps(bound_table(alphas, dof_lattice(max_len, 8, 10, DELTAS_WIDE)))
-    nruns, num = (2, 25) if ctx.quick else (8, 400)
-
-    def one(r):
+    nruns, num = (1, 30) if ctx.quick else (6, 400)
+    plan = []
+    for r in range(nruns):
         d = ctx.sub(f"sim{r}")
         (d / "bound.json").write_text(table)
-        # one worker per run: the behaviours of a run are then a function of the seed alone
-        return tlc.run_tlc("Detectors", cfg_text, d, workers=1, env={"BOUND_FILE": "bound.json"}, timeout=3000,
-                           simulate=f"num={num}", depth=max_len + 2, seed=ctx.seed * 1000 + r + 1)
 
-    with ThreadPoolExecutor(nruns) as ex:
-        results = list(ex.map(one, range(nruns)))
-    for r, res in enumerate(results):
-        tlc.require_ok(res, f"Detectors simulation {r}")
-        ctx.add_tlc(res, f"Detectors.tla -simulate num={num} depth={max_len + 2} (run {r})")
-        for inv, states in res.invariant_violations:
-            raise tlc.MachineryError(f"Detectors.tla theorem {inv} fails at spec level (simulation):\n" + "\n".join(states[-1:]))
-        replay_histories(ctx, res, alphas, nis_den, dense=not ctx.quick or r % 2 == 1, what=f"simulate{r}",
-                         procs=1 if ctx.quick else min(8, ctx.cpus))
-        res.stdout = ""
+        def go(r=r, d=d):
+            # one worker per run: the behaviours of a run are then a function of the seed alone
+            return tlc.run_tlc("Detectors", cfg_text, d, workers=1, env={"BOUND_FILE": "bound.json"}, timeout=3000,
+                               simulate=f"num={num}", depth=max_len + 2, seed=ctx.seed * 1000 + r + 1)
+
+        def finish(res, r=r):
+            tlc.require_ok(res, f"Detectors simulation {r}")
+            ctx.add_tlc(res, f"Detectors.tla -simulate num={num} depth={max_len + 2} (run {r})")
+            for inv, states in res.invariant_violations:
+                raise tlc.MachineryError(f"Detectors.tla theorem {inv} fails at spec level (simulation):\n" + "\n".join(states[-1:]))
+            replay_histories(ctx, res, alphas, nis_den, dense=not ctx.quick or r % 2 == 0, what=f"simulate{r}",
+                             procs=1 if ctx.quick else min(8, ctx.cpus))
+            res.stdout = ""
+
+        plan.append((f"simulate{r}", go, finish))
+    return plan
 
 
 # --------------------------------------------------------------------------- impl -> spec
@@ -407,15 +429,19 @@ def gen_traces(ctx: Ctx, rng: random.Random, nrng, count, nis_den, alphas, max_l
     return traces, floats
 
 
-def validate_traces(ctx: Ctx, traces, floats, nis_den, alphas, tag, workers):
+def start_trace_validation(ctx: Ctx, traces, nis_den, alphas, tag, workers):
+    """Write the recorded runs and return the thunk that runs TLC on them."""
     cfg = (tlc.SPEC_DIR / "TraceDetectors.cfg").read_text()
     cfg = re.sub(r"NisDen = \d+", f"NisDen = {nis_den}", cfg)
     d = ctx.sub(f"trace_{tag}")
     (d / "traces.json").write_text(json.dumps(traces))
     (d / "bound.json").write_text(json.dumps(bound_table(alphas, dof_lattice(50, 8, 10, DELTAS_WIDE))))
-    res = tlc.require_ok(tlc.run_tlc("TraceDetectors", cfg + "\n", d, workers=workers, cont=True, timeout=3000,
-                                     env={"TRACE_FILE": "traces.json", "BOUND_FILE": "bound.json"}),
-                         f"TraceDetectors {tag}")
+    return lambda: tlc.run_tlc("TraceDetectors", cfg + "\n", d, workers=workers, cont=True, timeout=3000,
+                               env={"TRACE_FILE": "traces.json", "BOUND_FILE": "bound.json"})
+
+
+def finish_trace_validation(ctx: Ctx, res, traces, floats, nis_den, alphas, tag):
+    tlc.require_ok(res, f"TraceDetectors {tag}")
     ctx.add_tlc(res, f"trace validation of {len(traces)} recorded runs of the real detectors ({tag})")
     spec_level = {"TypeOK", "DetectIffReaches", "WindowIsLastW", "MemoryUntouched"}
     seen = set()
@@ -462,32 +488,55 @@ def validate_traces(ctx: Ctx, traces, floats, nis_den, alphas, tag, workers):
     res.stdout = ""
 
 
-def run_impl_to_spec(ctx: Ctx, rng):
-    plan = [(4, 500, 30)] if ctx.quick else [(1, 5000, 50), (4, 5000, 50), (10, 5000, 50)]
+def validate_traces(ctx: Ctx, traces, floats, nis_den, alphas, tag, workers):
+    res = start_trace_validation(ctx, traces, nis_den, alphas, tag, workers)()
+    finish_trace_validation(ctx, res, traces, floats, nis_den, alphas, tag)
+
+
+def plan_impl_to_spec(ctx: Ctx, rng):
+    """Record runs of the real detectors now (main thread); TLC validates them later."""
+    shards = [(4, 300, 30)] if ctx.quick else [(1, 4000, 50), (4, 4000, 50), (10, 4000, 50)]
     alphas = ALPHAS_WIDE
-    for s, (nis_den, count, max_len) in enumerate(plan):
+    plan = []
+    for s, (nis_den, count, max_len) in enumerate(shards):
         nrng = np.random.default_rng([ctx.seed, 17, s])
         traces, floats = gen_traces(ctx, rng, nrng, count, nis_den, alphas, max_len, dense=True)
-        validate_traces(ctx, traces, floats, nis_den, alphas, f"den{nis_den}", workers=min(8, ctx.cpus))
+        tag = f"den{nis_den}"
+        go = start_trace_validation(ctx, traces, nis_den, alphas, tag, workers=4 if ctx.quick else min(8, ctx.cpus))
+
+        def finish(res, traces=traces, floats=floats, nis_den=nis_den, tag=tag):
+            finish_trace_validation(ctx, res, traces, floats, nis_den, alphas, tag)
+
+        plan.append((f"traces_{tag}", go, finish))
+    return plan
 
 
-def run_deep(ctx: Ctx):
+def plan_deep(ctx: Ctx):
     """Spec-level theorems over deeper histories on the merged state space (thorough only)."""
     cfg_text = (tlc.SPEC_DIR / "Detectors_deep.cfg").read_text()
     table = json.dumps(bound_table(ALPHAS_SMALL, dof_lattice(6, 3, 4, DELTAS_QUICK)))
     variants = [("standard+sliding, length 6", cfg_text),
                 ("fading, length 4", re.sub(r"MaxLen = \d+", "MaxLen = 4", re.sub(r"Kinds = \{[^}]*\}", 'Kinds = {"fading"}', cfg_text)))]
+    plan = []
     for r, (what, text) in enumerate(variants):
         d = ctx.sub(f"deep{r}")
         (d / "bound.json").write_text(table)
-        res = tlc.require_ok(tlc.run_tlc("Detectors", text + "\n", d, workers=min(8, ctx.cpus), env={"BOUND_FILE": "bound.json"},
-                                         timeout=3000), f"Detectors deep {what}")
-        ctx.add_tlc(res, f"Detectors.tla spec-level theorems, merged states ({what})")
-        for inv, states in res.invariant_violations:
-            raise tlc.MachineryError(f"Detectors.tla theorem {inv} fails at spec level:\n" + "\n".join(states[-1:]))
+
+        def go(text=text, d=d):
+            return tlc.run_tlc("Detectors", text + "\n", d, workers=min(8, ctx.cpus), env={"BOUND_FILE": "bound.json"}, timeout=3000)
+
+        def finish(res, what=what):
+            tlc.require_ok(res, f"Detectors deep {what}")
+            ctx.add_tlc(res, f"Detectors.tla spec-level theorems, merged states ({what})")
+            for inv, states in res.invariant_violations:
+                raise tlc.MachineryError(f"Detectors.tla theorem {inv} fails at spec level:\n" + "\n".join(states[-1:]))
+
+        plan.append((f"deep{r}", go, finish))
+    return plan
 
 
 def run(ctx: Ctx):
+    import time
     from .. import sched
     sched.install()
     import resonaate.estimation.maneuver_detection  # noqa: F401  (import before the pool forks)
@@ -495,7 +544,8 @@ def run(ctx: Ctx):
     rng = random.Random(ctx.seed * 7919 + 1717)
     ctx.rule = ("spec->impl: every history TLC enumerates (alphabet and lengths in Detectors_<tier>.cfg: NIS numerators x dimensions, "
                 "windows 1..4, delta 1/2 and 4/5, 3 thresholds) and every -simulate history (length 30/50, dims 1..8, windows 1..10, "
-                "6 deltas, 5-6 thresholds); one case per (detector config, history), non-trivial = some NIS non-zero. "
+                "6 deltas, 5-6 thresholds); one case per (detector config, history), each replayed at every threshold; "
+                "non-trivial = some NIS non-zero. "
                 "impl->spec: random runs of the real detectors through checkManeuverDetection, per-step dimension 1..8, "
                 "NIS = n/NisDen drawn around the chi-square bound; non-trivial = dimension varies within the run")
     ctx.assumptions = [
@@ -507,13 +557,31 @@ def run(ctx: Ctx):
         "fading-memory dof uses the running average dimension over the whole run, as the code documents (DESIGN.md 7-5)",
         "inputs are residual vectors / covariances whose quadratic form equals the posed NIS to 1e-12 (identity-scaled or dense positive definite, cond < 100)",
     ]
-    import time
+    # TLC runs are sub-processes started from a small thread pool; everything that touches ctx
+    # or the real detectors happens in this thread, in a fixed order.
     phases = ctx.extra.setdefault("phase_wall_s", {})
-    for name, fn in (("spec_to_impl_exhaustive", lambda: run_spec_to_impl(ctx)), ("spec_to_impl_simulate", lambda: run_simulation(ctx)),
-                     ("impl_to_spec_traces", lambda: run_impl_to_spec(ctx, rng)), ("deep_theorems", lambda: None if ctx.quick else run_deep(ctx))):
-        t0 = time.time()
-        fn()
-        phases[name] = round(time.time() - t0, 1)
+    t0 = time.time()
+    with ThreadPoolExecutor(3 if ctx.quick else 4) as ex:
+        plan = plan_exhaustive(ctx) + plan_simulation(ctx)
+        futs = [(label, ex.submit(go), finish) for label, go, finish in plan]
+        more = plan_impl_to_spec(ctx, rng)
+        phases["record_real_runs"] = round(time.time() - t0, 1)
+        if not ctx.quick:
+            more += plan_deep(ctx)
+        futs += [(label, ex.submit(go), finish) for label, go, finish in more]
+        results = []
+        for label, fut, finish in futs:
+            results.append((label, fut.result(), finish))
+            phases[f"tlc_done_{label}"] = round(time.time() - t0, 1)
+            if ctx.quick:                     # single-process replay: overlap it with the remaining TLC runs
+                t1 = time.time()
+                finish(results[-1][1])
+                phases[f"finish_{label}"] = round(time.time() - t1, 1)
+    if not ctx.quick:                         # worker pool forks only after every TLC thread has ended
+        for label, res, finish in results:
+            t1 = time.time()
+            finish(res)
+            phases[f"finish_{label}"] = round(time.time() - t1, 1)
 
 
 def replay(ctx: Ctx, rp: dict):
